@@ -244,22 +244,75 @@ Theorem key_string_injective k1 k2 :
   wf_key k1 -> wf_key k2 -> key_string k1 = key_string k2 -> k1 = k2.
 Proof.
   intros (L1&T1&C1) (L2&T2&C2) E. unfold key_string in E.
-  assert (ND : forall s, s = 32 \/ s = 93 \/ s = 124 -> ~ digit s) by (unfold digit; intros s [->|[->|->]]; lia).
+  assert (ND : forall s, s = 32 \/ s = 93 \/ s = 124 -> ~ digit s).
+  { unfold digit; intros s H; destruct H as [H|[H|H]]; subst; lia. }
   simpl in E. inversion E as [E1]. clear E.
   apply (split_sep 32 (ND _ (or_introl eq_refl))) in E1; try apply pad3_digit. destruct E1 as (A&E1).
   apply (split_sep 93 (ND _ (or_intror (or_introl eq_refl)))) in E1; try apply pad3_digit. destruct E1 as (B&E1).
   inversion E1 as [E2]. clear E1.
   apply (split_sep 124 (ND _ (or_intror (or_intror eq_refl)))) in E2; try apply digits_digit. destruct E2 as (T&E2).
   apply (split_sep 124 (ND _ (or_intror (or_intror eq_refl)))) in E2; try apply digits_digit. destruct E2 as (C&NM).
+  assert (Q1 : k_loc k1 / 256 < 65536) by (apply N.div_lt_upper_bound; lia).
+  assert (Q2 : k_loc k2 / 256 < 65536) by (apply N.div_lt_upper_bound; lia).
+  assert (M1 : k_loc k1 mod 256 < 65536).
+  { eapply N.lt_trans; [apply N.mod_upper_bound; discriminate|reflexivity]. }
+  assert (M2 : k_loc k2 mod 256 < 65536).
+  { eapply N.lt_trans; [apply N.mod_upper_bound; discriminate|reflexivity]. }
   assert (HA : k_loc k1 / 256 = k_loc k2 / 256).
-  { rewrite <- (pad3_val (k_loc k1 / 256)), <- (pad3_val (k_loc k2 / 256)); try congruence;
-    (eapply N.le_lt_trans; [apply N.div_le_upper_bound with (q := k_loc _); lia|]; lia). }
+  { rewrite <- (pad3_val _ Q1), <- (pad3_val _ Q2). congruence. }
   assert (HB : k_loc k1 mod 256 = k_loc k2 mod 256).
-  { rewrite <- (pad3_val (k_loc k1 mod 256)), <- (pad3_val (k_loc k2 mod 256)); try congruence;
-    (pose proof (N.mod_upper_bound (k_loc k1) 256); pose proof (N.mod_upper_bound (k_loc k2) 256); lia). }
+  { rewrite <- (pad3_val _ M1), <- (pad3_val _ M2). congruence. }
   assert (HT : k_qtype k1 = k_qtype k2) by (rewrite <- (digits_val _ T1), <- (digits_val _ T2); congruence).
   assert (HC : k_qclass k1 = k_qclass k2) by (rewrite <- (digits_val _ C1), <- (digits_val _ C2); congruence).
   assert (HL : k_loc k1 = k_loc k2).
-  { rewrite (N.div_mod (k_loc k1) 256), (N.div_mod (k_loc k2) 256) by lia. congruence. }
+  { rewrite (N.div_mod (k_loc k1) 256), (N.div_mod (k_loc k2) 256) by discriminate. congruence. }
   destruct k1, k2; simpl in *; congruence.
 Qed.
+
+(* the theorem with the actual key: questions are separated whenever location, qtype and
+   qclass are 16-bit numbers (they are: two location bytes, uint16 type and class) *)
+Theorem cache_invisible
+  (content body response : Type) (lower : bytes -> bytes) (locate : content -> request -> N)
+  (serve_core : content -> key -> bytes -> N -> body) (weightedf refusedf : content -> key -> bool)
+  (finish : body -> request -> N -> response)
+  (beq : body -> body -> Prop) (req : response -> response -> Prop) :
+  (forall b, beq b b) ->
+  (forall b1 b2 r l, beq b1 b2 -> req (finish b1 r l) (finish b2 r l)) ->
+  (forall g k a1 a2 rnd, lower a1 = lower a2 -> beq (serve_core g k a1 rnd) (serve_core g k a2 rnd)) ->
+  (forall g k a r1 r2, weightedf g k = false -> serve_core g k a r1 = serve_core g k a r2) ->
+  forall cfg rnd' h g,
+  hist_ok content lower locate wf_key g h ->
+  Forall (fun x => let '(w, a, b) := x in w = false -> req a b)
+         (both content body response lower locate serve_core weightedf refusedf finish cfg rnd' g [] h).
+Proof.
+  intros H1 H2 H3 H4 cfg rnd' h g HH.
+  eapply (cached_equals_uncached content body response lower locate serve_core weightedf refusedf finish
+            beq req H1 H2 H3 H4 wf_key key_string_injective cfg rnd' h g []); auto.
+  apply Inv_nil.
+Qed.
+
+(* ------------------------------------------------------------ a concrete instance *)
+(* generations are numbers; the body is the name as asked followed by the generation; bodies are
+   equivalent when they agree up to ASCII case; key 7 is weighted (body depends on the draw) *)
+Definition ex_lower (l : bytes) : bytes := map (fun b => if (65 <=? b) && (b <=? 90) then b + 32 else b) l.
+Definition ex_core (g : N) (k : key) (asked : bytes) (rnd : N) : bytes :=
+  asked ++ [g] ++ (if k_qtype k =? 7 then [rnd] else []).
+Definition ex_weighted (_ : N) (k : key) : bool := k_qtype k =? 7.
+Definition ex_finish (b : bytes) (r : request) (loc : N) : bytes * N * N := (b, q_extra r, loc).
+Definition ex_hist : list (event N) :=
+  [EQuery N 100 1 (mkReq 1 [87; 119; 87] 1 1 11);      (* "WwW": miss *)
+   EQuery N 101 2 (mkReq 1 [119; 119; 119] 1 1 12);    (* "www": hit, carries the first asker's case *)
+   EQuery N 102 3 (mkReq 2 [119; 119; 119] 1 1 13);    (* other location: miss *)
+   EQuery N 103 4 (mkReq 1 [119] 7 1 14);              (* weighted: never cached *)
+   EReload N 5;
+   EQuery N 104 5 (mkReq 1 [119; 119; 119] 1 1 15);    (* after the reload: computed on generation 5 *)
+   EQuery N 2000 6 (mkReq 1 [119; 119; 119] 1 1 16)].  (* 1896 s later: expired *)
+
+Example cache_example :
+  map (fun o => match o with Some (r, oc) => Some (fst (fst r), oc) | None => None end)
+      (crun N bytes (bytes * N * N) ex_lower (fun _ r => q_from r) ex_core ex_weighted (fun _ _ => false) ex_finish
+            (mkCC true 2 0) (4, []) ex_hist) =
+  [Some ([87; 119; 87; 4], OMiss); Some ([87; 119; 87; 4], OHit); Some ([119; 119; 119; 4], OMiss);
+   Some ([119; 4; 4], OMiss); None; Some ([119; 119; 119; 5], OMiss); Some ([119; 119; 119; 5], OExpired)] /\
+  hist_ok N ex_lower (fun _ r => q_from r) wf_key 4 ex_hist.
+Proof. split; [vm_compute; reflexivity|]. cbn. unfold wf_key; cbn. repeat split; reflexivity. Qed.
